@@ -130,6 +130,22 @@ def set_parents(tree: ast.AST) -> None:
             child._parent = parent  # type: ignore[attr-defined]
 
 
+def clone(node):
+    """Deep copy of a syntax tree that does not follow the ``_parent`` back-links (copy.deepcopy would drag the whole
+    module along)."""
+    if isinstance(node, list):
+        return [clone(x) for x in node]
+    if not isinstance(node, ast.AST):
+        return node
+    new = node.__class__()
+    for fld, val in ast.iter_fields(node):
+        setattr(new, fld, clone(val))
+    for a in ("lineno", "col_offset", "end_lineno", "end_col_offset", "_inl_file", "_inl_func", "_nt_fields"):
+        if hasattr(node, a):
+            setattr(new, a, getattr(node, a))
+    return new
+
+
 def parent_of(node: ast.AST) -> Optional[ast.AST]:
     return getattr(node, "_parent", None)
 
